@@ -22,6 +22,7 @@ func extractAll(repo string) string {
 	sb.WriteString(leveldbWrites(repo))
 	sb.WriteString(persisterSections(repo))
 	sb.WriteString(singleSections(repo))
+	sb.WriteString(moreSections(repo))
 	sb.WriteString(lockOrder(repo))
 	return sb.String()
 }
@@ -442,6 +443,57 @@ func singleSections(repo string) string {
 		fmt.Fprintf(&sb, "(%q, %s)", t.dir+":"+t.fn, leanBool(v))
 	}
 	sb.WriteString("]\n\n")
+	return sb.String()
+}
+
+// addTxIndexUpdatesAtomic: in TxCache.AddTx both index updates (txByHash.addTx, txListBySender.addTxReturnEvicted) are top-level
+// statements between mutTxOperation.Lock() and the next mutTxOperation.Unlock()
+func addTxIndexUpdatesAtomic(fd *ast.FuncDecl) bool {
+	if fd == nil {
+		return false
+	}
+	b := fd.Body
+	iLock := topIndex(b, 0, func(s ast.Stmt) bool { return isCall(s, "cache", "mutTxOperation", "Lock") })
+	if iLock < 0 {
+		return false
+	}
+	iUn := topIndex(b, iLock+1, func(s ast.Stmt) bool { return isCall(s, "cache", "mutTxOperation", "Unlock") })
+	deferred := topIndex(b, iLock+1, func(s ast.Stmt) bool { return isCall(s, "defer", "cache", "mutTxOperation", "Unlock") })
+	iHash := topIndex(b, iLock+1, func(s ast.Stmt) bool { return containsCall(s, "txByHash", "addTx") })
+	iList := topIndex(b, iLock+1, func(s ast.Stmt) bool { return containsCall(s, "txListBySender", "addTxReturnEvicted") })
+	if iHash < 0 || iList < 0 {
+		return false
+	}
+	// no index update before the lock is taken
+	if topIndex(b, 0, func(s ast.Stmt) bool { return containsCall(s, "txByHash", "addTx") || containsCall(s, "txListBySender", "addTxReturnEvicted") }) < iLock {
+		return false
+	}
+	if deferred >= 0 && deferred < iHash && deferred < iList && iUn < 0 {
+		return true
+	}
+	return iUn > iHash && iUn > iList
+}
+
+func moreSections(repo string) string {
+	tx := parsePkg(filepath.Join(repo, "txcache"))
+	su := parsePkg(filepath.Join(repo, "storageUnit"))
+	ad := parsePkg(filepath.Join(repo, "storageCacherAdapter"))
+	var sb strings.Builder
+	facts := []struct {
+		name string
+		doc  string
+		val  bool
+	}{
+		{"addTxIndexUpdatesAtomic", "TxCache.AddTx updates the hash index and the sender list inside ONE mutTxOperation critical section", addTxIndexUpdatesAtomic(tx.funcs["TxCache.AddTx"])},
+		{"unitGetSingleSection", "storageUnit.Unit.Get (cache lookup, persister read, cache refill) is ONE critical section of the unit lock", wholeBodyLocked(su.funcs["Unit.Get"])},
+		{"unitPutSingleSection", "storageUnit.Unit.Put (cache write, persister write, undo) is ONE critical section of the unit lock", wholeBodyLocked(su.funcs["Unit.Put"])},
+		{"unitRemoveSingleSection", "storageUnit.Unit.Remove is ONE critical section of the unit lock", wholeBodyLocked(su.funcs["Unit.Remove"])},
+		{"adapterPutSingleSection", "storageCacherAdapter.Put (memory-tier write + persisting the victims) is ONE critical section of the adapter lock", wholeBodyLocked(ad.funcs["storageCacherAdapter.Put"])},
+	}
+	for _, f := range facts {
+		fmt.Fprintf(&sb, "/-- %s -/\ndef %s : Bool := %s\n", f.doc, f.name, leanBool(f.val))
+	}
+	sb.WriteString("\n")
 	return sb.String()
 }
 
